@@ -198,6 +198,8 @@ def check_C01(replay=None):
     jobs.append(("labels", ["--fam", "labels", "--n", 40 if thorough else 6, "--seed", chk.seed, "--layouts", 2]))
     jobs.append(("labels_ns", ["--fam", "labels", "--n", 4, "--seed", chk.seed + 1, "--layouts", 1, "--stack", 0]))
     jobs.append(("strings", ["--fam", "strings", "--seed", chk.seed, "--layouts", 1]))
+    # .blkw counts around and above 2^15, written in decimal (layout 0) and in a seeded spelling
+    jobs.append(("bigblk", ["--fam", "bigblk", "--seed", chk.seed, "--layouts", 3 if thorough else 2]))
     # an accepted source must have the right image - also when it should not have been accepted
     jobs.append(("beyond", ["--fam", "verdict", "--n", 4 if thorough else 1, "--seed", chk.seed + 3, "--layouts", 1]))
     nrand = 1600 if thorough else 160
